@@ -1,5 +1,6 @@
 import Gmx.Model.TxPack
 import Gmx.Lemmas.TxPack
+import Gmx.Lemmas.TxPack2
 /-!
 # C41 — transaction packing preserves instructions and respects size limits
 
@@ -200,6 +201,20 @@ theorem memo_regression :
     wireLen 1 (g.allIxs o.memo) true [] = 510 ∧ addCode (tgAdd o [] ⟨[g], true⟩).2 = 2 := by
   decide
 
+/-- **Packed size = length of the serialized transaction.** `serialize` lays the transaction out
+byte by byte (compact-u16 signature count, 64-byte signatures, v0 prefix, 3-byte header, account
+keys in `CompiledKeys` order, blockhash, compiled instructions with compact-u16 lengths and
+one-byte account indexes, address-table lookups); its length is `wireLen` for ALL inputs. The
+bytes themselves are compared with solana_sdk's bincode output on every run (`txp bytes`). -/
+theorem serialized_length_eq_wireLen (payer : Nat) (ixs : List Ix) (versioned : Bool)
+    (luts : List (List Nat)) :
+    (serialize payer ixs versioned luts).length = wireLen payer ixs versioned luts :=
+  serialize_length payer ixs versioned luts
+
+/-- the header bytes are the signature count and the two readonly counts of `CompiledKeys`. -/
+theorem compactBytes_length_eq (n : Nat) : (compactBytes n).length = compactLen n :=
+  compactBytes_length n
+
 /-- The size estimate never EXCEEDS the serialized size of the v0 transaction… -/
 theorem estimate_le_serialized (payer : Nat) (ixs : List Ix) (ts : List (List Nat)) :
     estimate payer ixs true (some ts) ≤ wireLen payer ixs true ts := by
@@ -233,6 +248,16 @@ theorem estimate_ge_serialized_partial (payer : Nat) (ixs : List Ix) (ts : List 
     (hu : (usedTables (lutStats payer ixs ts)).length ≤ 127) :
     wireLen payer ixs true ts ≤ estimate payer ixs true (some ts) :=
   Nat.le_of_eq (estimate_eq_serialized_partial payer ixs ts hs hu).symm
+
+/-- the per-table estimate never exceeds the number of serialized bytes, and equals it under the
+compact-u16 guard — now a statement about the byte string itself. -/
+theorem estimate_vs_serialized_bytes (payer : Nat) (ixs : List Ix) (ts : List (List Nat)) :
+    estimate payer ixs true (some ts) ≤ (serialize payer ixs true ts).length ∧
+    ((∀ s ∈ lutStats payer ixs ts, s.1 ≤ 127 ∧ s.2 ≤ 127) →
+      (usedTables (lutStats payer ixs ts)).length ≤ 127 →
+      estimate payer ixs true (some ts) = (serialize payer ixs true ts).length) := by
+  rw [serialize_length]
+  exact ⟨estimate_le_serialized payer ixs ts, estimate_eq_serialized_partial payer ixs ts⟩
 
 /-- `transaction_size` (the `HashSet` variant of `TransactionBuilder`, called with the union of the
 tables' addresses and the NUMBER of tables) equals the per-table estimate plus 34 bytes for every
@@ -302,6 +327,14 @@ theorem compact_witness :
     estimate 1 [⟨1, 500, manyMetas 128, 8⟩] true (some [manyKeys 128]) = 470 ∧
     wireLen 1 [⟨1, 500, manyMetas 128, 8⟩] true [manyKeys 128] = 471 := by
   constructor <;> decide +kernel
+
+/-- the serialized bytes of a small legacy transaction (payer 1 signs, program 500, one writable
+account 7, eight data bytes tagged 1): 1 signature, header (1,0,1), keys 1, 7, 500. -/
+theorem serialize_example :
+    (serialize 1 [⟨1, 500, [⟨7, false, true⟩], 8⟩] false []).take 1 = [1] ∧
+    ((serialize 1 [⟨1, 500, [⟨7, false, true⟩], 8⟩] false []).drop 65).take 4 = [1, 0, 1, 3] ∧
+    (serialize 1 [⟨1, 500, [⟨7, false, true⟩], 8⟩] false []).length = 210 := by
+  decide +kernel
 
 /-! ### Non-vacuity -/
 -- two mergeable groups with the same payer are merged into one transaction, first payer kept
